@@ -4,6 +4,7 @@ import (
 	"encoding/hex"
 	"fmt"
 	"github.com/massnetorg/mass-core/massutil"
+	"massnet.org/mass-wallet/masswallet"
 	"sort"
 
 	"github.com/massnetorg/mass-core/wire"
@@ -53,6 +54,7 @@ func (w *World) ImportC(hint uint32) error {
 	if err != nil {
 		return err
 	}
+	w.ImportQueued = true
 	return w.registerC(ws.WalletID)
 }
 
@@ -129,7 +131,11 @@ func (w *World) TaskStatus(role string) string {
 // ImportStep runs one rescan batch of wallet C, as the worker goroutine would.
 func (w *World) ImportStep() (bool, error) {
 	w.I.W.VerifDrainTasks()
-	return w.I.W.VerifRunImportStep(w.Wallets["C"].ID)
+	fin, err := w.I.W.VerifRunImportStep(w.Wallets["C"].ID)
+	// worker(): the task is queued again unless the step reported "finished" (a step that
+	// fails with "unexpected credit not found" is treated as finished, an aborted one is dropped)
+	w.ImportQueued = !fin && !(err != nil && (err.Error() == "unexpected credit not found" || err == masswallet.ErrTaskAbort))
+	return fin, err
 }
 
 // RemoveB calls RemoveWallet for wallet B (API call: marks the wallet and queues the task).
@@ -208,7 +214,7 @@ func (w *World) ApplyTask(ev string) (bool, error) {
 		}
 		return true, w.ImportC(hint)
 	case "i.s":
-		if st := w.TaskStatus("C"); len(st) < 9 || st[:9] != "importing" {
+		if st := w.TaskStatus("C"); len(st) < 9 || st[:9] != "importing" || !w.ImportQueued {
 			return false, nil
 		}
 		_, err := w.ImportStep()
@@ -253,6 +259,10 @@ func (w *World) ApplyTask(ev string) (bool, error) {
 			return true, err
 		}
 		w.I.W.VerifInitTaskChan()
+		// worker() queues every unready wallet again at start-up
+		if st := w.TaskStatus("C"); len(st) >= 9 && st[:9] == "importing" {
+			w.ImportQueued = true
+		}
 		return true, nil
 	}
 	return false, fmt.Errorf("unknown task event %q", ev)
@@ -286,7 +296,7 @@ func (w *World) CheckTaskStates() []string {
 func (w *World) CompleteTasks() error {
 	for _, role := range []string{"C", "B"} {
 		st := w.TaskStatus(role)
-		if len(st) >= 9 && st[:9] == "importing" {
+		if len(st) >= 9 && st[:9] == "importing" && (role != "C" || w.ImportQueued) {
 			id := w.Wallets[role].ID
 			for k := 0; ; k++ {
 				if k > 40 {
@@ -294,6 +304,9 @@ func (w *World) CompleteTasks() error {
 				}
 				w.I.W.VerifDrainTasks()
 				fin, err := w.I.W.VerifRunImportStep(id)
+				if role == "C" {
+					w.ImportQueued = !fin
+				}
 				if err != nil {
 					w.HandlerErrs = append(w.HandlerErrs, "import step: "+err.Error())
 					if k > 5 {
@@ -478,5 +491,18 @@ func (w *World) CheckAddressList() []string {
 		}
 	}
 	sort.Strings(d)
+	return d
+}
+
+// CheckTasksDone is evaluated after CompleteTasks: every wallet the instance holds must be
+// ready (nothing is left importing or removing with nobody working on it).
+func (w *World) CheckTasksDone() []string {
+	var d []string
+	for _, role := range w.Roles() {
+		st := w.TaskStatus(role)
+		if st != "ready" && st != "absent" && st != "" {
+			d = append(d, fmt.Sprintf("task: wallet %s stays %q although the worker has no task left for it (queued=%v)", role, st, role == "C" && w.ImportQueued))
+		}
+	}
 	return d
 }
